@@ -501,6 +501,53 @@ def job_versions(name, get_project):
 
 
 # ------------------------------------------------------------------------------------------------
+# job: program names that contain each other (ACF / ACF-p): removing one program must not touch the explicit interaction outcomes of the others
+# ------------------------------------------------------------------------------------------------
+def job_substring_programs(name, get_project):
+    import atomica as at
+    import sciris as sc
+    from atomica.programs import Covout
+
+    rec = Rec()
+    P = sc.dcp(get_project(name))
+    if not len(P.progsets):
+        return rec
+    g = P.progsets[0]
+    fw, data = P.framework, P.data
+    pop = list(g.pops.keys())[0]
+    par = next((p_ for (p_, q_) in g.covouts.keys() if q_ == pop), None) or list(g.covouts.keys())[0][0]
+    for code in ("zq", "zq-p", "zw"):
+        g.add_program(code, "Program " + code)
+        pr = g.programs[code]
+        pr.target_pops = [pop]
+        pr.target_comps = [c for c, v in g.comps.items() if not v["non_targetable"]][:1]
+        pr.spend_data.insert(None, 1000.0)
+        pr.unit_cost.insert(None, 10.0)
+    g.covouts[(par, pop)] = Covout(par=par, pop=pop, progs={"zq": 0.5, "zq-p": 0.6, "zw": 0.7}, cov_interaction="additive", imp_interaction="zq-p+zw=0.9,zq+zw=0.8", baseline=0.1)
+    g.remove_program("zq")
+    c = g.covouts[(par, pop)]
+    rec.count("substring.programs")
+    rec.case({"api": "ProgramSet.remove_program", "project": name, "case": "names containing each other"}, nontrivial=True)
+    rec.traces += 1
+    kept = {frozenset(x.strip() for x in t.split("=")[0].split("+")): float(t.split("=")[1]) for t in (c.imp_interaction or "").split(",") if "=" in t}
+    want = {frozenset({"zq-p", "zw"}): 0.9}
+    replay = {"kind": "substring_programs", "project": name}
+    if kept != want:
+        rec.violation({"api": "ProgramSet.remove_program", "case": "interaction of other programs changed"},
+                      f"{name}: programs zq, zq-p, zw with explicit outcomes 'zq-p+zw=0.9,zq+zw=0.8'; after remove_program('zq') the covout keeps {c.imp_interaction!r}; the outcome of zq-p+zw (0.9) belongs to programs that are still there", replay)
+        return rec
+    try:
+        g2 = rt_progset(g, fw, data)
+        d = diff_content(progset_content(g), progset_content(g2))
+    except Exception as ex:
+        rec.violation({"api": "ProgramSet.to_spreadsheet", "case": "cannot be read back"}, f"{name}: after remove_program on programs whose names contain each other: {type(ex).__name__}: {str(ex)[:200]}", replay)
+        return rec
+    if d:
+        rec.violation({"api": "ProgramSet.to_spreadsheet", "case": "content changed"}, f"{name}: after remove_program on programs whose names contain each other: {short(d)}", replay)
+    return rec
+
+
+# ------------------------------------------------------------------------------------------------
 # job: generated databook + program book
 # ------------------------------------------------------------------------------------------------
 PROG_ALPHA = [c for c in U.INNER if c not in "+,=:"]
@@ -1198,6 +1245,8 @@ def run_job(job):
             return job, job_genfw(job[1])
         if kind == "versions":
             return job, job_versions(job[1], c16.get_project)
+        if kind == "substring":
+            return job, job_substring_programs(job[1], c16.get_project)
         raise ValueError(kind)
     except Exception:  # noqa
         rec = Rec()
